@@ -254,7 +254,7 @@ def _normalize(values: pd.Series, scaler: Optional[MinMaxScaler]) -> pd.Series:
         return values
 
     # MinMax normalize values, while retaining the NaN values
-    values_array = values.to_numpy()
+    values_array = values.to_numpy(copy=True)
     nan_indices = np.isnan(values_array)
     if nan_indices.all():
         return values
